@@ -122,6 +122,32 @@ func loadProgram(repo string) (*Verifier, error) {
 		cs.Axioms = append(cs.Axioms, lcs.Axioms...)
 		cs.Files = append(cs.Files, lcs.Files...)
 	}
+	// "implements X": the function takes over the clauses of funcspec X (same parameter names required)
+	for _, c := range cs.Funcs {
+		for _, name := range c.Implements {
+			fs := cs.FuncSpecs[c.PkgName+"."+name]
+			if fs == nil {
+				return nil, fmt.Errorf("%s: funcspec %s not found", c.Key, name)
+			}
+			if len(fs.Params) != len(c.Params) || len(fs.Results) != len(c.Results) {
+				return nil, fmt.Errorf("%s: signature differs from funcspec %s", c.Key, name)
+			}
+			for i := range fs.Params {
+				if fs.Params[i].Name != c.Params[i].Name {
+					return nil, fmt.Errorf("%s: parameter names differ from funcspec %s", c.Key, name)
+				}
+			}
+			for i := range fs.Results {
+				if fs.Results[i].Name != c.Results[i].Name {
+					return nil, fmt.Errorf("%s: result names differ from funcspec %s", c.Key, name)
+				}
+			}
+			c.Requires = append(append([]*Clause{}, fs.Requires...), c.Requires...)
+			c.Ensures = append(append([]*Clause{}, fs.Ensures...), c.Ensures...)
+			c.Modifies = append(append([]*Clause{}, fs.Modifies...), c.Modifies...)
+			c.HasMod = c.HasMod || fs.HasMod
+		}
+	}
 	v.contracts = cs
 	return v, nil
 }
